@@ -6,6 +6,8 @@ package c05
 import (
 	"encoding/json"
 	"fmt"
+	"math"
+	"math/big"
 	"testing"
 
 	"github.com/trustbloc/sidetree-core-go/pkg/api/protocol"
@@ -91,7 +93,7 @@ func init() {
 	ev.RegisterReplay(chkSweep, replay)
 	ev.RegisterReplay(chkRapid, replay)
 	ev.RegisterReplay(chkIntake, replayIntake)
-	ev.Assume("anchoring times are below 2^62; signed window bounds may be any int64, pre-epoch (negative) ones included")
+	ev.Assume("anchoring times and time deltas may be any uint64, signed window bounds any integer that JSON carries exactly (|x| <= 2^53, pre-epoch ones included); the reference evaluates the window predicate in unbounded integers")
 }
 
 // TestReplay runs first.
@@ -290,7 +292,7 @@ func TestBoundarySweep(t *testing.T) {
 }
 
 func TestRapidTriples(t *testing.T) {
-	ev.Rule(chkRapid, "rapid: (anchorFrom, anchorUntil, anchoring time) triples drawn around the boundaries (incl. empty windows: anchorUntil before anchorFrom) with drawn maxOperationTimeDelta and drawn unrelated parameters (pairwise distinct), all 5 key types and both hash algorithms; in one case of three a second protocol version with another delta is in force (genesis at or just after the anchoring time) and the operation is stamped with either version - the stamped version's delta governs; in one case of three create and recover name drawn (equal, different, absent, object-valued) anchor origins; same oracle")
+	ev.Rule(chkRapid, "rapid: (anchorFrom, anchorUntil, anchoring time) triples drawn around the boundaries (incl. empty windows: anchorUntil before anchorFrom) with drawn maxOperationTimeDelta and drawn unrelated parameters (pairwise distinct), all 5 key types and both hash algorithms; in one case of three a second protocol version with another delta is in force (genesis at or just after the anchoring time) and the operation is stamped with either version - the stamped version's delta governs; in one case of five the far ends of the ranges (anchoring time up to 2^64-1, bounds up to +-2^53 (the largest integers JSON carries exactly), delta up to 2^64-1); in one case of three create and recover name drawn (equal, different, absent, object-valued) anchor origins; same oracle")
 	ev.Rapid(t, chkRapid, 600, 6000, func(t *rapid.T) {
 		p := baseParams()
 		p.TimeDelta = uint64(rapid.IntRange(1, 200000).Draw(t, "timeDelta"))
@@ -319,13 +321,21 @@ func TestRapidTriples(t *testing.T) {
 		}
 		c := &Case{Type: rapid.SampledFrom(types).Draw(t, "type"), KeyType: int(rapid.SampledFrom(keys.AllTypes).Draw(t, "keyType")),
 			Code: rapid.SampledFrom([]uint64{asm.SHA256, asm.SHA512}).Draw(t, "hash"), From: from, Until: until, T: uint64(tm), P: p}
+		if rapid.IntRange(0, 4).Draw(t, "extremeValues") == 0 {
+			// the far ends of the value ranges: anchoring times up to 2^64-1, window bounds up to +-2^53 (JSON numbers are doubles), time deltas up to
+			// 2^64-1 - the window predicate is a statement about integers, not about 64-bit arithmetic
+			c.T = rapid.SampledFrom([]uint64{1<<63 - 1, 1 << 63, 1<<63 + 1, 1<<64 - 50, 1<<64 - 1, 2000, 1 << 62}).Draw(t, "extremeTime")
+			c.From = rapid.SampledFrom([]int64{-100, -(1 << 53), 1<<53 - 11, 1 << 53, 1700000000, 0, -5}).Draw(t, "extremeFrom")
+			c.Until = rapid.SampledFrom([]int64{0, 0, -1, -50, 1 << 53, 5, -(1 << 53)}).Draw(t, "extremeUntil")
+			c.P.TimeDelta = rapid.SampledFrom([]uint64{600, 1<<63 - 1, 1 << 63, 1<<64 - 1, 1<<63 + 5}).Draw(t, "extremeDelta")
+		}
 		if rapid.IntRange(0, 2).Draw(t, "origins") == 0 {
 			org := []interface{}{nil, "origin-a", "origin-b", map[string]interface{}{"o": "c"}}
 			c.CreateOrigin = rapid.SampledFrom(org).Draw(t, "createOrigin")
 			c.OpOrigin = rapid.SampledFrom(org).Draw(t, "opOrigin")
 		}
 		if rapid.Bool().Draw(t, "withAlt") {
-			alt := rapid.SampledFrom(altConfigs(p)).Draw(t, "alt")
+			alt := rapid.SampledFrom(altConfigs(c.P)).Draw(t, "alt")
 			c.Alt = &alt
 		}
 		if rapid.IntRange(0, 2).Draw(t, "secondVersion") == 0 {
@@ -400,7 +410,14 @@ func evalIntake(c *Case) (kind, sig, msg string) {
 	}
 	eff := c.Until
 	if c.From != 0 && c.Until == 0 {
-		eff = c.From + int64(c.P.TimeDelta)
+		// anchorFrom + delta in unbounded integers; the validator takes a signed 64-bit value, so a sum beyond its range
+		// can only be handed over as the largest one (which keeps the verdict "not yet expired" for every clock)
+		sum := new(big.Int).Add(big.NewInt(c.From), new(big.Int).SetUint64(c.P.TimeDelta))
+		if sum.IsInt64() {
+			eff = sum.Int64()
+		} else {
+			eff = math.MaxInt64
+		}
 	}
 	want := [2]int64{c.From, eff}
 	if len(rv.calls) != 1 || rv.calls[0] != want {
@@ -420,16 +437,20 @@ func replayIntake(raw json.RawMessage) (string, string) {
 }
 
 func TestIntakeTimeValidator(t *testing.T) {
-	ev.Rule(chkIntake, "deterministic sweep: type x window shape {(0,0),(a,0),(a,u),(0,u),(u,a) empty,(a,a),(a,a-1) empty} x 5 maxOperationTimeDelta values x {base, 5 single-parameter variations} x 5 key types; a recording TimeValidator installed with WithAnchorTimeValidator must receive exactly (anchorFrom, effective anchorUntil); non-trivial = anchorUntil defaulted (from set, until missing)")
+	ev.Rule(chkIntake, "deterministic sweep: type x window shape {(0,0),(a,0),(a,u),(0,u),(u,a) empty,(a,a),(a,a-1) empty} x 5 maxOperationTimeDelta values x {base, 5 single-parameter variations} x 5 key types, plus deltas 2^63-1, 2^63, 2^64-1 and bounds -a, 2^53-11 under the base configuration (a sum beyond the signed 64-bit range must arrive as the largest value); a recording TimeValidator installed with WithAnchorTimeValidator must receive exactly (anchorFrom, effective anchorUntil); non-trivial = anchorUntil defaulted (from set, until missing)")
 	const a, u = int64(100000), int64(150000)
 	item := 0
 	for _, kt := range keys.AllTypes {
 		for _, typ := range types {
-			for _, delta := range []uint64{1, 61, 7207, 30011, 86413} {
-				for _, w := range [][2]int64{{0, 0}, {a, 0}, {a, u}, {0, u}, {u, a}, {a, a}, {a, a - 1}} {
+			for _, delta := range []uint64{1, 61, 7207, 30011, 86413, 1<<63 - 1, 1 << 63, 1<<64 - 1} {
+				for _, w := range [][2]int64{{0, 0}, {a, 0}, {a, u}, {0, u}, {u, a}, {a, a}, {a, a - 1}, {-a, 0}, {1<<53 - 11, 0}} {
 					p := baseParams()
 					p.TimeDelta = delta
-					for _, cfg := range append([]Params{p}, altConfigs(p)...) {
+					cfgs := append([]Params{p}, altConfigs(p)...)
+					if delta > 100000 || w[0] < 0 || w[0] > u {
+						cfgs = cfgs[:1] // the far ends of the ranges under the base configuration only
+					}
+					for _, cfg := range cfgs {
 						item++
 						if !ev.Mine(item) {
 							continue
